@@ -128,6 +128,28 @@ Fixpoint procs (s : site) (c : call) {struct c} : Z :=
       end
   end.
 
+(* the largest number of tasks (of the innermost running calls) that can be running at the same time, if every pool
+   really runs as many tasks at once as it has workers: a call with [eff] workers has [eff] tasks in flight, each of
+   which is inside at most one of the nested calls at a time *)
+Fixpoint conc (s : site) (c : call) {struct c} : Z :=
+  match c with
+  | Call bsel n children =>
+      match call_outcome s bsel n with
+      | Raise _ => 0
+      | Ok (b, eff) =>
+          let ws := worker_site s b in
+          eff * (fix go (l : list call) : Z := match l with [] => 1 | ch :: t => Z.max (conc ws ch) (go t) end) children
+      end
+  end.
+
+(* the largest resolved n_jobs anywhere in the tree (at least 1) *)
+Fixpoint maxres (cpus : Z) (c : call) {struct c} : Z :=
+  match c with
+  | Call _ n children =>
+      Z.max (Z.max 1 (resolve cpus n))
+            ((fix go (l : list call) : Z := match l with [] => 1 | ch :: t => Z.max (maxres cpus ch) (go t) end) children)
+  end.
+
 (* every call of the tree leaves the backend to the defaults *)
 Fixpoint default_tree (c : call) : bool :=
   match c with
